@@ -26,6 +26,7 @@ TECHNIQUE = "Lean 4 proof over an executable model + history correspondence with
 OBLIGATIONS = [
     "Grog.C02.executes_only_if",
     "Grog.C02.unchanged_not_executed",
+    "Grog.C02.noop_rebuild_partial",
     "Grog.C02.restore_total",
     "Grog.C02.reexec_subset",
     "Grog.C02.early_cutoff",
